@@ -193,3 +193,7 @@ if "replay_jobs" in globals():
 
 XBT = [cfloat_streams("arith", 1, 1, all_bt_quick=True), cfloat_streams("order", 1, 1, all_bt_quick=True)]
 XBT_HARNESS = ["h_cfloat_u8", "h_cfloat_u16", "h_cfloat_u32"]
+
+C20_HARNESS = {"h_cfloat_big_san": dict(src="h_cfloat.cpp", flags=["-DUV_PART=0"] + SAN), "h_cfloat_u8_san": dict(src="h_cfloat.cpp", flags=["-DUV_PART=8"] + SAN)}
+C20_MAP = {"h_cfloat_big": "h_cfloat_big_san", "h_cfloat_u8": "h_cfloat_u8_san"}
+C20_STREAMS = [cfloat_streams("arith", 1500, 30000, quick_exh8=3), cfloat_streams("tonat", 800, 20000), cfloat_streams("fromnat", 800, 20000), cfloat_streams("order", 800, 20000)]
